@@ -1,3 +1,5 @@
+UFUNS = {'BY': ['int', 'int', 'int'], 'IND': ['int', 'int', 'int']}
+
 """Contracts for the value-level meta mapping (models/meta_item_internal.py, C18): where a meta item created from a plain value gets its indentation from.
 The filtered view the mapping extends is abstract: g_items is the list of MetaItem entries at that moment (kept consistent by RI, unit l3.views)."""
 
@@ -131,3 +133,26 @@ def _(self, index):
                  and forall(lambda o: len(as_list(o, 'MetaItem')) == pre(len(as_list(o, 'MetaItem'))) and elems(as_list(o, 'MetaItem')) == pre(elems(as_list(o, 'MetaItem')))))
     ensures(len(self.g_items) == old(len(self.g_items)) - 1
             and exists(lambda i: old(FirstAt(self, index, i)) and forall(lambda k: implies(0 <= k and k < len(self.g_items), self.g_items[k] == sel(old(elems(self.g_items)), ite(k < i, k, k + 1))), self.g_items[k])))
+
+# ================================================================ the default indentation of a first meta item (C18): the owner's own indentation FOLLOWED BY its indent_by
+# (for top-level entries, which have no indentation of their own: indent_by alone). BY / IND: what the two descriptors read on the instance.
+@contract('data_field.__get__')
+def _(self, instance):
+    modifies()
+    functional('BY')
+
+@contract('base_ro_property.__get__')
+def _(self, instance):
+    modifies()
+    ensures(result != None and result.g_text == IND(self, instance))
+
+@contract('Indent.value')
+def _(self):
+    modifies()
+    ensures(result == self.g_text)
+
+@contract('_get_default_indent')
+def _(instance, indent_by_field, indent_property):
+    requires(indent_by_field != None)
+    modifies()
+    ensures(result == ite(indent_property != None, cat(IND(indent_property, instance), BY(indent_by_field, instance)), BY(indent_by_field, instance)))
